@@ -204,6 +204,12 @@ def gen_case(run_seed: int, index: int, tier: str) -> dict:
             case["warmup_messages"].insert(rng.randrange(len(case["warmup_messages"]) + 1), [list(r_) for r_ in case["messages"]])
         if rng.random() < 0.2:  # one earlier call is malformed (one bit too many) and raises; the chain is used again afterwards
             case["warmup_messages"].insert(rng.randrange(len(case["warmup_messages"]) + 1), [[rng.randrange(2) for _ in range(b * k + 1)]])
+    if not huge and rng.random() < 0.12:
+        # a second decoder built on the same encoder object (size bounds as for the decoders under test)
+        # only decoders the catalogue admits for this code (its size bounds keep table and codebook constructions small)
+        co = [kd for kd in ("syndrome", "ml") if kd in C.decoder_kinds(spec, enc, False)] + [kd for kd in ("bp", "minsum", "bp") if kd in C.decoder_kinds(spec, enc, True)]
+        if co:
+            case["cohabit"] = rng.choice(co)
     if rng.random() < 0.15:  # a similar code (same encoder class, same n and k) was set up earlier in the process
         sib = C.sibling_spec(rng, spec)
         if sib is not None:
@@ -264,6 +270,14 @@ def gen_case(run_seed: int, index: int, tier: str) -> dict:
             pl["soft_budget"] = 0.9
         else:
             case["noise_var"] = dm * dm / llr_floor
+        # the noise variance may be handed over as a float, a 0-dim tensor, or - when it is about one or more - a whole number
+        # (Python int or integer tensor); rounding it changes the LLR scale by at most a third
+        r_nv = rng.random()
+        if case["noise_var"] >= 0.75 and r_nv < 0.2:
+            case["noise_var"] = float(max(1, round(case["noise_var"])))
+            case["nv_form"] = rng.choice(["int", "int_tensor"])
+        elif r_nv < 0.35:
+            case["nv_form"] = "tensor"
     return case
 
 
